@@ -77,11 +77,24 @@ func oracleC07(f *sessionFam, w *World, res *Result) []Violation {
 			var outstanding *hev     // ping without accepted pong
 			var answered *hev        // the ping the last accepted pong answered
 			upgradedSincePing := false
+			prevDue := lastAccept + pi // when the ping was due before the latest acceptance moved it
+			tied := false
 			for i := range hs {
 				h := hs[i]
+				if tied {
+					break
+				}
 				switch h.kind {
 				case "ping-out":
 					want := lastAccept + pi
+					if h.t != want && h.t == lastAccept && h.t == prevDue {
+						// a pong was accepted at the very instant the next ping was due: the interval timer had fired
+						// and was refreshed in the same instant. Both the ping now and the re-armed one are legal, and
+						// from here on two ping chains interleave: the rest of this session's heartbeat is not judged
+						w.probe("pong_accepted_at_ping_due_instant")
+						tied = true
+						continue
+					}
 					if outstanding != nil {
 						l.add("one-ping-outstanding", "", fmt.Sprintf("%s [%s]: ping at %v while the ping of %v is unanswered", a, ctx, h.t, outstanding.t))
 					} else if h.t != want {
@@ -96,12 +109,18 @@ func oracleC07(f *sessionFam, w *World, res *Result) []Violation {
 					}
 					answered = outstanding
 					outstanding = nil
+					if h.t != lastAccept {
+						prevDue = lastAccept + pi
+					}
 					lastAccept = h.t
 				case "upgrade":
 					upgradedSincePing = true
 				case "pong-out":
 					l.add("v4-server-never-pongs", "", fmt.Sprintf("%s [%s]: revision-4 server created a pong packet at %v", a, ctx, h.t))
 				}
+			}
+			if tied {
+				continue
 			}
 			// a ping that should have been emitted before the end
 			if outstanding == nil && closeEv == nil && lastAccept+pi < endT && lastAccept+pi < drainAt {
@@ -151,6 +170,9 @@ func oracleC07(f *sessionFam, w *World, res *Result) []Violation {
 				case "ping-out":
 					l.add("v3-server-never-pings", "", fmt.Sprintf("%s [%s]: revision-3 server created a ping at %v", a, ctx, h.t))
 				}
+			}
+			if pendingPong >= 0 && hs[pendingPong].t >= drainAt {
+				pendingPong = -1 // the run ended in the instant this ping was being processed
 			}
 			if pendingPong >= 0 && (closeEv == nil || closeEv.Seq > hs[pendingPong].seq+8) {
 				l.add("v3-every-ping-answered", "", fmt.Sprintf("%s [%s]: client ping at %v got no pong", a, ctx, hs[pendingPong].t))
